@@ -17,7 +17,7 @@ import (
 )
 
 // Relay templates (payload of the relay event), simplest first.
-var RelayTemplates = []string{"sp", "in", "ch", "cf", "dup"}
+var RelayTemplates = []string{"sp", "in", "ch", "cf", "dup", "s2"}
 
 // PendingRef is the reference model of the wallet's pending set. It is driven by the same
 // notifications the wallet receives (DESIGN §5 C09):
@@ -362,16 +362,22 @@ func (w *World) relayedSpends(op wire.OutPoint) bool {
 
 func (w *World) lastRelayed(kind string) *wire.MsgTx {
 	for i := len(w.Relayed) - 1; i >= 0; i-- {
-		if w.RelayedKind[i] == kind {
+		if kindIs(w.RelayedKind[i], kind) {
 			return w.Relayed[i]
 		}
 	}
 	return nil
 }
 
+// kindIs: the two-input wallet spend "s2" counts as a wallet spend "sp" for the templates
+// that build on one (child, conflict, confirmed conflict).
+func kindIs(have, want string) bool {
+	return have == want || (want == "sp" && have == "s2")
+}
+
 func (w *World) firstRelayed(kind string) *wire.MsgTx {
 	for i := range w.Relayed {
-		if w.RelayedKind[i] == kind {
+		if kindIs(w.RelayedKind[i], kind) {
 			return w.Relayed[i]
 		}
 	}
@@ -393,6 +399,19 @@ func (w *World) RelayContent(t string, l *Ledger) (*wire.MsgTx, bool) {
 			if c.SpentAt == 0 && c.Owner != nil && c.Owner.Wallet == "A" && c.Class == ClassStd && c.Value > 2*Mass &&
 				!w.relayedSpends(c.OP) && w.NextSpendable(c, l) {
 				return spend([]*Coin{c}, out(Mass+3, w.SPk), out(c.Value-Mass-3-fee, A.Addrs[0].Pk)), true
+			}
+		}
+	case "s2":
+		// a wallet spend with TWO wallet inputs: a conflict confirmed on the first one must
+		// free the second one again
+		var two []*Coin
+		for _, c := range l.ByOrder {
+			if c.SpentAt == 0 && c.Owner != nil && c.Owner.Wallet == "A" && c.Class == ClassStd && c.Value > Mass &&
+				!w.relayedSpends(c.OP) && w.NextSpendable(c, l) {
+				two = append(two, c)
+				if len(two) == 2 {
+					return spend(two, out(Mass+5, w.SPk), out(two[0].Value+two[1].Value-Mass-5-fee, A.Addrs[0].Pk)), true
+				}
 			}
 		}
 	case "in":
